@@ -18,6 +18,7 @@ def main():
     ap.add_argument('--tier', default=os.environ.get('VERIF_TIER', 'quick'))
     ap.add_argument('--repo', default=os.environ.get('VERIF_REPO', '/repo'))
     ap.add_argument('--unit', action='append')
+    ap.add_argument('--job', action='append', help='only these job names (development aid)')
     ap.add_argument('--replay')
     ap.add_argument('--no-evidence', action='store_true')
     a = ap.parse_args()
@@ -38,6 +39,7 @@ def main():
         print('\n'.join(d.get('verifier_trace_tail', [])))
         return 0
     seed = int(os.environ.get('VERIF_SEED', '0') or 0)
+    runner.ONLY_JOBS = a.job
     return runner.check_property(a.prop, a.tier, a.repo, seed=seed, only_units=a.unit,
                                  write_evidence=not a.no_evidence)
 
